@@ -20,9 +20,14 @@ RULE = (
     "_compute_shift, Function.preimage_gap) and the source functions on the same arguments (translator validation); "
     "after EVERY operation TableMethod.function / pumping_subuniverse() / is_pumping are compared with BOTH extracted "
     "models (layer A = Forest/Model.v, layer B = Forest/ModelB.v with the cached _shifts, the two indices and the "
-    "incrementally maintained _preimage_count), and with a naive Kleene iteration (oracle); additionally, and only "
-    "as information, the INTERNALS of layer B are compared with the internals of the real object after every operation "
-    "and the layer-B invariant is decided on the real object (extra check 'layer-B internals'); each multiset is "
+    "incrementally maintained _preimage_count), and with a naive Kleene iteration (oracle); additionally the INTERNALS "
+    "of layer B are compared with the internals of the real object after every operation (information only: extra check "
+    "'layer-B internals') and the layer-B invariant is decided on the real object, split into a GENUINE part (cached shifts "
+    "of live rules, _preimage_count, live part of the two indices exact, queue/held set empty) and observable-equivalent "
+    "BOOKKEEPING (dead index entries, _infinity_count: information only); when the genuine part fails, up to 300 random "
+    "continuations (1-8 keys/queries appended to the history) are run on the real object and the first one on which "
+    "function / is_pumping / pumping_subuniverse differs from the Kleene iteration is reported as a VIOLATION with that "
+    "extended history as failing input (none found: loud line in the evidence, no violation); each multiset is "
     "replayed in ONE second random order and the FINAL function dicts are compared (sampled order independence); "
     "consecutive prefixes of the generated order are checked for monotonicity. "
     "Non-trivial: some class ends with a finite non-zero value AND some class pumps; distinct = distinct op list."
@@ -32,7 +37,8 @@ TRUSTED = [
     "Forest/ModelB.v (layer B: the data structures of the code as they are — _rules, cached _shifts rows updated by "
     "-1/+1/None, _rules_using_class, _rules_pumping_class, deque with duplicates, held set, cached gap, Function._value "
     "grown lazily, raw _preimage_count maintained incrementally, the three asserts) tied to the code by this "
-    "correspondence: observables after every operation (compared), internals after every operation (informational). "
+    "correspondence: observables after every operation (compared), internals after every operation (informational; "
+    "a failure of the genuine part of the invariant on the real object triggers a search for a failing continuation). "
     "Not transcribed: a DefaultList grows by trailing empty entries when merely read (stripped on both sides); "
     "ForestRuleKey.bucket (plays no role in TableMethod); len(shifts) != len(children)",
     "Forest/Model.v (layer A) is no longer trusted for the theorems about the incremental algorithm: it is proved to "
@@ -150,7 +156,11 @@ def encode_with(case, res):
 
 # informational tallies (main process only): layer-B internals vs the real object's internals
 INT_STATS = {"ops": 0, "canon_equal": 0, "full_equal": 0, "canon_diff_examples": [], "cases": 0,
-             "real_invariant_ops": 0, "real_invariant_fail": 0, "real_invariant_examples": []}
+             "real_invariant_ops": 0, "real_invariant_fail": 0, "real_invariant_examples": [],
+             # genuine invariant failures: with a failing continuation (reported as VIOLATION by the oracle) / without
+             "genuine_witnessed": 0, "genuine_unwitnessed": 0, "genuine_unwitnessed_examples": [], "search_tries": 0,
+             # observable-equivalent bookkeeping (dead index entries, _infinity_count)
+             "bookkeeping_fail": 0, "bookkeeping_examples": []}
 
 
 def canon_model(mo):
@@ -296,29 +306,44 @@ def _snapshot(tm):
 
 
 def _real_invariant(tm):
-    """the layer-B invariant (Forest/RefineB.v, BInv) decided on the REAL object between two operations:
-    cached shifts of every live rule = _compute_shift of the current table; _preimage_count = histogram of
-    the finite values; the two indices list exactly the live (rule, child) pairs, without duplicates;
-    queue and held set empty.  None = holds, else what fails."""
+    """the layer-B invariant (Forest/RefineB.v, BInv) decided on the REAL object between two operations,
+    split by what a violation can mean.  Returns (genuine, bookkeeping), each None = holds, else what fails.
+
+    GENUINE (the algorithm READS it to decide an answer; a violation predicts a wrong observable on SOME
+    continuation, and impl() then searches for one):
+      * the cached _shifts row of every live rule (finite parent) = _compute_shift of the current table
+        (read by the firing test of _process_queue / _increase_value / _set_infinite);
+      * _preimage_count = histogram of the finite values (read by preimage_gap -> gap -> hold test);
+      * every live (rule, child) pair with a finite child is listed EXACTLY once in _rules_using_class[child],
+        every live rule exactly once in _rules_pumping_class[parent] (a missing entry = a missed +-1 update
+        of a cached shift, a doubled entry = a doubled one), and no entry of a live rule sits under a wrong
+        class / wrong child index;
+      * queue and held set empty between operations (else the answers were handed out before the fixed point).
+    BOOKKEEPING (observable-equivalent: no answer of function / is_pumping / pumping_subuniverse can depend
+    on it, so a harmless refactoring may change it; stays informational):
+      * DEAD entries in the two indices - entries of a rule whose parent is infinite (its queue visits end in
+        the `current_value is None: return` of _increase_value/_set_infinite, its row is never read for an
+        answer) and entries filed under an infinite class (that list is never read again): the purge loop of
+        _set_infinite is an optimisation;
+      * _infinity_count (read by status() only)."""
     F = tm._function
     vals = list(F._value)
     fin = lambda c: c >= len(vals) or vals[c] is not None
+    live = lambda i: vals[tm._rules[i].parent] is not None if 0 <= i < len(tm._rules) else False
     for i, k in enumerate(tm._rules):
         if vals[k.parent] is not None:
             p = vals[k.parent]
             want = [None if (c < len(vals) and vals[c] is None) else (vals[c] if c < len(vals) else 0) + s - p
                     for c, s in zip(k.children, k.shifts)]
             if list(tm._shifts[i]) != want:
-                return "cached shifts of live rule %d are %r, recomputed %r" % (i, tm._shifts[i], want)
+                return "cached shifts of live rule %d are %r, recomputed %r" % (i, tm._shifts[i], want), None
     hist = {}
     for v in vals:
         if v is not None:
             hist[v] = hist.get(v, 0) + 1
     pc = list(F.preimage_count)
     if any(pc[j] != hist.get(j, 0) for j in range(len(pc))) or any(j >= len(pc) for j in hist):
-        return "preimage_count %r is not the histogram %r" % (pc, hist)
-    if F._infinity_count != sum(1 for v in vals if v is None):
-        return "infinity_count"
+        return "preimage_count %r is not the histogram %r" % (pc, hist), None
     want_p, want_u = {}, {}
     for i, k in enumerate(tm._rules):
         if vals[k.parent] is not None:
@@ -326,15 +351,26 @@ def _real_invariant(tm):
             for j, c in enumerate(k.children):
                 if fin(c):
                     want_u.setdefault(c, []).append((i, j))
-    got_p = {c: sorted(l) for c, l in enumerate(tm._rules_pumping_class._list) if l}
-    got_u = {c: sorted(l) for c, l in enumerate(tm._rules_using_class._list) if l}
+    all_p = {c: sorted(l) for c, l in enumerate(tm._rules_pumping_class._list) if l}
+    all_u = {c: sorted(l) for c, l in enumerate(tm._rules_using_class._list) if l}
+    # the part of the indices that is ever read for an answer: entries of live rules under finite classes
+    got_p = {c: [i for i in l if live(i)] for c, l in all_p.items() if fin(c)}
+    got_u = {c: [(i, j) for i, j in l if live(i)] for c, l in all_u.items() if fin(c)}
+    got_p = {c: l for c, l in got_p.items() if l}
+    got_u = {c: l for c, l in got_u.items() if l}
     if got_p != want_p:
-        return "_rules_pumping_class %r, live rules per parent %r" % (got_p, want_p)
+        return "live part of _rules_pumping_class %r, live rules per parent %r" % (got_p, want_p), None
     if got_u != want_u:
-        return "_rules_using_class %r, live (rule, child) pairs %r" % (got_u, want_u)
+        return "live part of _rules_using_class %r, live (rule, child) pairs %r" % (got_u, want_u), None
     if tm._processing_queue or tm._rule_holding_extra_terms:
-        return "queue or held set not empty between operations"
-    return None
+        return "queue or held set not empty between operations", None
+    if F._infinity_count != sum(1 for v in vals if v is None):
+        return None, "infinity_count %r" % (F._infinity_count,)
+    if all_p != want_p:
+        return None, "dead entries in _rules_pumping_class %r, live rules per parent %r" % (all_p, want_p)
+    if all_u != want_u:
+        return None, "dead entries in _rules_using_class %r, live (rule, child) pairs %r" % (all_u, want_u)
+    return None, None
 
 
 def _run_tm(ops, ints=None, inv=None):
@@ -369,6 +405,77 @@ def _run_tm(ops, ints=None, inv=None):
     return out, snaps
 
 
+# ---- a failed GENUINE invariant must be turned into a failing INPUT: search for a continuation of the
+#      history on which an observable answer of the real object is wrong (decided by naive_lfp, no model)
+SEARCH_TRIES = 300          # per case, for the first SEARCH_FULL cases of a process; afterwards SEARCH_TRIES_LATE
+SEARCH_TRIES_LATE = 30
+SEARCH_FULL = 20
+_SEARCHED = [0]
+
+
+def _observable_fault(tm, keys, labels):
+    """None, or how an observable answer of the real object differs from the least fixed point of `keys`"""
+    want = naive_lfp(keys)
+    got = tm.function
+    if got != want:
+        return "function=%r but least fixed point=%r" % (got, want)
+    inf = {l for l, v in want.items() if v is None}
+    for l in labels:
+        if bool(tm.is_pumping(l)) != (l in inf):
+            return "is_pumping(%d)=%r but least fixed point says %r" % (l, tm.is_pumping(l), l in inf)
+    sub = [(k.parent, k.children, k.shifts) for k in tm.pumping_subuniverse()]
+    wsub = [(p, tuple(c for c, _ in kids), tuple(s for _, s in kids)) for _, p, kids in keys
+            if p in inf and all(c in inf for c, _ in kids)]
+    if sub != wsub:
+        return "pumping_subuniverse()=%r but the keys whose classes all pump are %r" % (sub, wsub)
+    return None
+
+
+def _find_continuation(ops, at, seed, tries):
+    """the genuine invariant fails on the real object after ops[at]: append random keys / queries to the history
+    (cut after the failing operation, or whole) until an OBSERVABLE answer is wrong.
+    Returns ({"ops": extended history, "why": ...} or None, tries used)."""
+    import random
+    from comb_spec_searcher.typing import ForestRuleKey, RuleBucket
+
+    r = random.Random(seed)
+    labs = sorted({o[1] for o in ops} | {c for o in ops if o[0] == 0 for c, _ in o[2]})
+    g = max([1] + [abs(s) for o in ops if o[0] == 0 for _, s in o[2]])
+    fresh = [max(labs, default=0) + 1, max(labs, default=0) + 2]
+    for t in range(tries):
+        base = ops[:at + 1] if t % 2 == 0 else ops
+        pool = labs + (fresh if r.random() < 0.3 else [])
+        smax = g + (1 if r.random() < 0.15 else 0)
+        ext = []
+        for _ in range(r.randint(1, 8)):
+            if r.random() < 0.15:
+                ext.append([1, r.choice(pool)])
+                continue
+            ar = r.choice([0, 0, 0, 1, 1, 2, 2, 3])
+            kids = [(r.choice(pool), r.randint(-smax, smax) if r.random() < 0.5 else r.randint(0, smax))
+                    for _ in range(ar)]
+            ext.append(_key(r.choice(pool), kids))
+        hist = base + ext
+        tm = _guarded_tm(hist)
+        keys = []
+        why = None
+        for n_done, o in enumerate(hist):
+            try:
+                if o[0] == 0:
+                    keys.append(o)
+                    tm.add_rule_key(ForestRuleKey(o[1], tuple(c for c, _ in o[2]), tuple(s for _, s in o[2]),
+                                                  RuleBucket.NORMAL))
+                else:
+                    tm.is_pumping(o[1])
+            except Exception as ex:  # pylint: disable=broad-except
+                why = "raises %s: %s" % (type(ex).__name__, ex)
+            if why is None and n_done >= len(base):
+                why = _observable_fault(tm, keys, pool)
+            if why is not None:
+                return {"ops": hist[:n_done + 1], "why": "after operation %d of the extended history: %s" % (n_done, why)}, t + 1
+    return None, tries
+
+
 def impl(case):
     if "gen" in case:
         return {"out": _impl_translated(case["gen"]), "snaps": [], "final_perm": {}}
@@ -382,10 +489,16 @@ def impl(case):
     perm = keys[:]
     r.shuffle(perm)
     _, snaps2 = _run_tm(perm)
-    bad = [(i, w) for i, w in enumerate(inv) if w]
+    bad = [(i, w[0]) for i, w in enumerate(inv) if w[0]]
+    book = [(i, w[1]) for i, w in enumerate(inv) if w[1]]
+    res = {"out": [-8000, out, out], "snaps": snaps, "final_perm": snaps2[-1] if snaps2 else {}, "ints": ints,
+           "inv_ops": len(inv), "inv_bad": bad[:1], "inv_book": book[:1]}
+    if bad:
+        _SEARCHED[0] += 1
+        tries = SEARCH_TRIES if _SEARCHED[0] <= SEARCH_FULL else SEARCH_TRIES_LATE
+        res["inv_witness"], res["inv_tries"] = _find_continuation(case["ops"], bad[0][0], case["perm_seed"], tries)
     # "out": the observables twice — compared with layer A and with layer B of the model
-    return {"out": [-8000, out, out], "snaps": snaps, "final_perm": snaps2[-1] if snaps2 else {}, "ints": ints,
-            "inv_ops": len(inv), "inv_bad": bad[:1]}
+    return res
 
 
 INF = None
@@ -439,6 +552,13 @@ def oracle(case, res):
         i += 1
     if keys and res["final_perm"] != res["snaps"][-1]:
         return "answer depends on insertion order: %r vs %r" % (res["snaps"][-1], res["final_perm"])
+    if res.get("inv_witness"):
+        # a GENUINE invariant of the algorithm (see _real_invariant) fails on the real object although every answer
+        # on this history is still right: the continuation found by impl() is an input on which an answer is wrong
+        i, what = res["inv_bad"][0]
+        w = res["inv_witness"]
+        return ("layer-B invariant fails on the real object after operation %d (%s); FAILING INPUT: on the extended "
+                "history ops=%r an observable answer is wrong - %s" % (i, what, w["ops"], w["why"]))
     return None
 
 
@@ -458,8 +578,20 @@ def classify(case, res):
     INT_STATS["real_invariant_ops"] += res.get("inv_ops", 0)
     if res.get("inv_bad"):
         INT_STATS["real_invariant_fail"] += 1
+        INT_STATS["search_tries"] += res.get("inv_tries", 0)
+        ex = {"ops": case.get("ops"), "op_index": res["inv_bad"][0][0], "what": res["inv_bad"][0][1]}
         if len(INT_STATS["real_invariant_examples"]) < 3:
-            INT_STATS["real_invariant_examples"].append({"ops": case.get("ops"), "op_index": res["inv_bad"][0][0], "what": res["inv_bad"][0][1]})
+            INT_STATS["real_invariant_examples"].append(ex)
+        if res.get("inv_witness"):
+            INT_STATS["genuine_witnessed"] += 1
+        else:
+            INT_STATS["genuine_unwitnessed"] += 1
+            if len(INT_STATS["genuine_unwitnessed_examples"]) < 3:
+                INT_STATS["genuine_unwitnessed_examples"].append(ex)
+    if res.get("inv_book"):
+        INT_STATS["bookkeeping_fail"] += 1
+        if len(INT_STATS["bookkeeping_examples"]) < 2:
+            INT_STATS["bookkeeping_examples"].append({"ops": case.get("ops"), "op_index": res["inv_book"][0][0], "what": res["inv_book"][0][1]})
     if "gen" in case:
         return ["translated:" + ["can_give_terms", "compute_shift", "preimage_gap"][case["gen"][0]]]
     tags = []
@@ -481,6 +613,15 @@ def classify(case, res):
 def shrink(case):
     if "gen" in case:
         return
+    # a case that fails ONLY through the invariant + continuation search: first replace it by the extended
+    # history, which fails the plain observable oracle (function != least fixed point) by itself
+    try:
+        res = impl(case)
+        why = oracle(case, res)
+    except Exception:  # pylint: disable=broad-except
+        why = None
+    if why and why.startswith("layer-B invariant fails") and res.get("inv_witness"):
+        yield {"ops": res["inv_witness"]["ops"], "perm_seed": case["perm_seed"]}
     ops = case["ops"]
     for i in range(len(ops)):
         yield {"ops": ops[:i] + ops[i + 1:], "perm_seed": case["perm_seed"]}
@@ -519,8 +660,12 @@ LEVEL_NOTE = (
     "TableMethod's function / pumping_subuniverse / is_pumping are compared with the extracted layer-A AND layer-B models "
     "(a disagreement is a violation), and the real object's internals (_shifts, the two indices, _value, preimage_count, "
     "_infinity_count, _gap_size; separately the schedule-dependent stale rows and cached _current_gap) with layer B's - "
-    "informational only, reported in the evidence under 'layer-B internals', together with the invariant BInv decided on the real "
-    "object. The arithmetic of layer B IS the source's: _can_give_terms, _compute_shift, Function.preimage_gap, the hold test "
+    "informational only, reported in the evidence under 'layer-B internals'. The invariant BInv is decided on the real object "
+    "after every operation: a failure of the part the firing/gap decisions READ (cached shifts of live rules, _preimage_count, "
+    "live index entries exact, empty queue/held set) starts a search for a continuation history with a wrong observable answer, "
+    "reported as a violation with that history; dead index entries (the purge of _set_infinite is an optimisation: entries of "
+    "rules with an infinite parent only lead to the early return of _increase_value) and _infinity_count (status() only) are "
+    "observable-equivalent bookkeeping and stay informational. The arithmetic of layer B IS the source's: _can_give_terms, _compute_shift, Function.preimage_gap, the hold test "
     "of _increase_value and the gap interval / release test of _correct_gap are RE-TRANSLATED from forest.py on every run and used "
     "by ModelB.v directly (layer A is proved to branch on the same expressions: C03_firing_test_is_source [an identity of "
     "functions: the code evaluates that composition only in add_rule_key; that the CACHED row equals it at firing time is "
@@ -564,23 +709,35 @@ def extra_checks(ctx):
 
     st = INT_STATS
     detail = (
-        "INFORMATIONAL, never a violation. ops=%d in %d histories; canonical internals equal: %d; schedule-dependent "
-        "internals equal: %d; layer-B invariant BInv decided on the REAL object after each of %d operations: "
-        "%d histories where it fails. "
+        "ops=%d in %d histories; canonical internals equal: %d; schedule-dependent internals equal: %d; "
+        "layer-B invariant BInv decided on the REAL object after each of %d operations, split: GENUINE part (cached "
+        "shifts of live rules, _preimage_count, live part of the two indices exact, queue/held empty) fails in %d "
+        "histories, of which %d with a failing continuation found (each reported as VIOLATION by the oracle) and %d "
+        "without (%d continuations tried in total); BOOKKEEPING part (dead index entries, _infinity_count: "
+        "observable-equivalent, informational) differs in %d histories. "
         "[canonical = live rows of _shifts, _rules_using_class, _rules_pumping_class (sorted), _value, preimage_count, "
-        "_infinity_count, _gap_size of the extracted layer-B model vs the real TableMethod after every operation; "
+        "_infinity_count, _gap_size of the extracted layer-B model vs the real TableMethod after every operation "
+        "(informational: layer B transcribes the purge, a refactoring need not keep it); "
         "schedule-dependent = stale rows of rules with an infinite parent, cached _current_gap (model resolves set.pop()/"
         "set order by position)]"
         % (st["ops"], st["cases"], st["canon_equal"], st["full_equal"],
-           st["real_invariant_ops"], st["real_invariant_fail"])
+           st["real_invariant_ops"], st["real_invariant_fail"], st["genuine_witnessed"], st["genuine_unwitnessed"],
+           st["search_tries"], st["bookkeeping_fail"])
     )
     if st["canon_equal"] != st["ops"]:
         detail = ("CANONICAL INTERNALS DIFFER on %d operations (observables are compared separately; if they agree this is "
                   "not a violation: the code's bookkeeping differs from layer B's transcription). B's snapshots: %r. "
                   % (st["ops"] - st["canon_equal"], st["canon_diff_examples"]))[:400] + detail
-    if st["real_invariant_fail"]:
-        detail = ("REAL OBJECT VIOLATES THE LAYER-B INVARIANT: %r. " % (st["real_invariant_examples"],))[:400] + detail
-    info = [("layer-B internals vs real TableMethod (informational)", True, detail)]
+    if st["bookkeeping_fail"]:
+        detail = ("BOOKKEEPING of the real object differs from layer B's invariant (observable-equivalent): %r. "
+                  % (st["bookkeeping_examples"],))[:400] + detail
+    if st["genuine_unwitnessed"]:
+        detail = ("!!! GENUINE LAYER-B INVARIANT FAILS ON THE REAL OBJECT in %d histories AND NO FAILING CONTINUATION WAS "
+                  "FOUND (model and implementation observables agree on them, else the case is a VIOLATION anyway): the "
+                  "firing test reads a state the proofs exclude; look at forest.py. Examples: %r. !!! "
+                  % (st["genuine_unwitnessed"], st["genuine_unwitnessed_examples"]))[:700] + detail
+    info = [("layer-B internals vs real TableMethod (genuine invariant failures are searched for a failing input; "
+             "the rest informational)", True, detail)]
     return info + [gen_selftest.rejects(_BAD_SNIPPETS)] + gen_selftest.checks(GEN_TARGETS, ctx.seed, ID)
 
 
